@@ -5,6 +5,7 @@ import Rare.Proofs.C03Run
 import Rare.Proofs.C03ReduceExpr
 import Rare.Proofs.C03Analyze
 import Rare.Proofs.C03Wiring
+import Rare.Proofs.C03Spark
 import Rare.Gen.C03
 import Rare.Props.C07
 import Rare.Props.C13
@@ -253,6 +254,111 @@ theorem histo_csv_schedule_independent (cls : Line → Cls) (key : Line → Byte
   refine ⟨(csv_of_state_deterministic alg hc _ _ hobs o₁ o₂ r₁ r₂).1, ?_⟩
   rw [csv_roundtrip _ (by intro r hr; simp [counterCsvRows, counterRows] at hr; rcases hr with rfl | ⟨_, _, rfl⟩ <;> simp)]
   exact (csv_of_state_deterministic alg hc _ _ hobsr oref o₁ rr r₁).2
+
+/-- End to end for `table` / `heatmap` (and `spark` whenever nothing is trimmed: `--notruncate`, a value-ordered
+column sort, or no more columns than `--cols`): two terminal states of the whole program for the same files and
+command line, under any tuning, schedule, contract-abiding `sort.Sort` and map iteration orders, export the same CSV
+text; re-reading it gives the rows of the sequential reference. -/
+theorem table_csv_schedule_independent (cls : Line → Cls) (key : Line → Bytes) (datas : List Bytes) (d : Bytes) (hd : d ≠ [])
+    (cfg₁ cfg₂ : Config) (hW₁ : 1 ≤ cfg₁.W) (hW₂ : 1 ≤ cfg₂.W) (h₁ h₂ : List Bytes)
+    (t₁ : Terminal cls key cfg₁ datas h₁) (t₂ : Terminal cls key cfg₂ datas h₂)
+    (alg : List NV → Algo NV (List NV)) (hc : SortContract alg) (co₁ co₂ ro₁ ro₂ coref roref : List Bytes)
+    (hco₁ : IsRangeOf co₁ (Table.run d h₁).cols) (hco₂ : IsRangeOf co₂ (Table.run d h₂).cols)
+    (hro₁ : IsRangeOf ro₁ (Table.run d h₁).rows) (hro₂ : IsRangeOf ro₂ (Table.run d h₂).rows)
+    (hcor : IsRangeOf coref (Table.run d (refSamples cls key datas)).cols)
+    (hror : IsRangeOf roref (Table.run d (refSamples cls key datas)).rows) :
+    writeCsv (tableCsvRows (sortOf alg) co₁ ro₁ (Table.run d h₁)) = writeCsv (tableCsvRows (sortOf alg) co₂ ro₂ (Table.run d h₂)) ∧
+    parseCsv (writeCsv (tableCsvRows (sortOf alg) co₁ ro₁ (Table.run d h₁))) =
+      tableCsvRows isortFn coref roref (Table.run d (refSamples cls key datas)) := by
+  have p1 := terminal_perm cls key cfg₁ hW₁ datas h₁ t₁
+  have p2 := terminal_perm cls key cfg₂ hW₂ datas h₂ t₂
+  obtain ⟨a1, a2, a3, _⟩ := C07.table_perm d hd h₁ h₂ (p1.trans p2.symm)
+  obtain ⟨b1, b2, b3, _⟩ := C07.table_perm d hd (refSamples cls key datas) h₁ p1.symm
+  refine ⟨(csv_of_state_deterministic_table alg hc _ _ a1 a2 a3 co₁ co₂ ro₁ ro₂ hco₁ hco₂ hro₁ hro₂).1, ?_⟩
+  rw [csv_roundtrip _ (by intro r hr; simp [tableCsvRows, tableRows] at hr; rcases hr with rfl | ⟨_, _, rfl⟩ <;> simp)]
+  exact (csv_of_state_deterministic_table alg hc _ _ b1 b2 b3 coref co₁ roref ro₁ hcor hco₁ hror hro₁).2
+
+/-- End to end for `bargraph`: same statement for the sub-key counter (a history the aggregator accepts at all:
+`SubKeyCounter.run` is `.ok` – it is for every history, see C07). -/
+theorem bargraph_csv_schedule_independent (cls : Line → Cls) (key : Line → Bytes) (datas : List Bytes)
+    (cfg₁ cfg₂ : Config) (hW₁ : 1 ≤ cfg₁.W) (hW₂ : 1 ≤ cfg₂.W) (h₁ h₂ : List Bytes)
+    (t₁ : Terminal cls key cfg₁ datas h₁) (t₂ : Terminal cls key cfg₂ datas h₂)
+    (alg : List NV → Algo NV (List NV)) (hc : SortContract alg) :
+    ∃ s₁ s₂ sr, SubKeyCounter.run h₁ = .ok s₁ ∧ SubKeyCounter.run h₂ = .ok s₂ ∧
+      SubKeyCounter.run (refSamples cls key datas) = .ok sr ∧
+      ∀ o₁ o₂ oref, IsRangeOf o₁ s₁.items → IsRangeOf o₂ s₂.items → IsRangeOf oref sr.items →
+        writeCsv (subKeyCsvRows (sortOf alg) o₁ s₁) = writeCsv (subKeyCsvRows (sortOf alg) o₂ s₂) ∧
+        parseCsv (writeCsv (subKeyCsvRows (sortOf alg) o₁ s₁)) = subKeyCsvRows isortFn oref sr := by
+  have p1 := terminal_perm cls key cfg₁ hW₁ datas h₁ t₁
+  have p2 := terminal_perm cls key cfg₂ hW₂ datas h₂ t₂
+  obtain ⟨s₁, s₂, e1, e2, a1, _, a2, a3⟩ := C07.subkey_perm h₁ h₂ (p1.trans p2.symm)
+  obtain ⟨sr, s₁', e3, e1', b1, _, b2, b3⟩ := C07.subkey_perm (refSamples cls key datas) h₁ p1.symm
+  rw [e1] at e1'; cases e1'
+  refine ⟨s₁, s₂, sr, e1, e2, e3, ?_⟩
+  intro o₁ o₂ oref r₁ r₂ rr
+  refine ⟨(csv_of_state_deterministic_subkey alg hc _ _ a1 a2 a3 o₁ o₂ r₁ r₂).1, ?_⟩
+  rw [csv_roundtrip _ (by intro r hr; simp [subKeyCsvRows, subCounterRows] at hr; rcases hr with rfl | ⟨_, _, rfl⟩ <;> simp)]
+  exact (csv_of_state_deterministic_subkey alg hc _ _ b1 b2 b3 oref o₁ rr r₁).2
+
+/-! ## `rare spark`: the trim inside every render
+
+`cmd/spark.go` trims, in every periodic render and in the final one, the columns outside the last `--cols` of
+`OrderedColumns(colSorter)` (since b216f7d only for column orders that look at the names; a value-ordered sort never
+trims, so `table_csv_schedule_independent` covers it).  `SparkReach lt n d h t`: `t` is the aggregator after SOME
+interleaving of the samples `h` with render steps, each using any arrangement `s` of the current column names that is
+sorted by the name order `lt` and any map iteration orders. -/
+
+/-- The final table of `spark` does not depend on where the renders fell: whatever the interleaving, after the final
+render the aggregator has the cells, rows, columns and parse-error count of ONE render step applied to the
+sequentially sampled table – for every strict total order on column names, every `--cols`, every delimiter. -/
+theorem spark_trim_any_render_schedule {lt : Bytes → Bytes → Bool} (ho : NameOrder lt) (n : Nat) (d : Bytes) (hd : d ≠ [])
+    (h : List Bytes) (t : Table) (hr : SparkReach lt n d h t)
+    (st co : List Bytes) (ro : Bytes → List Bytes) (hst : IsSortedCols lt t st) (hcov : Covers t co ro)
+    (sF coF : List Bytes) (roF : Bytes → List Bytes) (hsF : IsSortedCols lt (Table.run d h) sF)
+    (hcovF : Covers (Table.run d h) coF roF) :
+    (∀ c r, (renderStep n t st co ro).cell c r = (renderStep n (Table.run d h) sF coF roF).cell c r) ∧
+    (∀ r, (aget (renderStep n t st co ro).rows r).isSome = (aget (renderStep n (Table.run d h) sF coF roF).rows r).isSome) ∧
+    (∀ c, (aget (renderStep n t st co ro).cols c).isSome = (aget (renderStep n (Table.run d h) sF coF roF).cols c).isSome) ∧
+    (renderStep n t st co ro).errors = (renderStep n (Table.run d h) sF coF roF).errors :=
+  let ⟨a, b, c, e, _, _⟩ := spark_final ho n d hd h t hr st co ro hst hcov sF coF roF hsF hcovF
+  ⟨a, b, c, e⟩
+
+/-- The same for the executable model the correspondence runs (`tbl` op: the real `TableAggregator` driven through
+the same script): `sparkRun` over any script of samples and renders, then the final render, against one `sparkTrim`
+of the sequential table.  In particular a row that a render emptied and that is sampled again right afterwards
+counts like a fresh row. -/
+theorem spark_model_render_timing_independent (n : Nat) (d : Bytes) (hd : d ≠ []) (evs : List SparkEv) :
+    let tf := sparkTrim n (sparkRun n d evs)
+    let rf := sparkTrim n (Table.run d (sparkSamples evs))
+    (∀ c r, tf.cell c r = rf.cell c r) ∧ (∀ r, (aget tf.rows r).isSome = (aget rf.rows r).isSome) ∧
+    (∀ c, (aget tf.cols c).isSome = (aget rf.cols c).isSome) ∧ tf.errors = rf.errors := by
+  obtain ⟨hr, hn⟩ := sparkRun_reach n d evs
+  have hnF := (C07.tableInv_run d hd (sparkSamples evs)).nodupCols
+  simp only [sparkTrim_eq]
+  exact spark_trim_any_render_schedule bytesLt_nameOrder n d hd _ _ hr _ _ _ (sparkCols_sorted _ hn) (covers_self _)
+    _ _ _ (sparkCols_sorted _ hnF) (covers_self _)
+
+/-- A render step keeps exactly the columns with fewer than `--cols` columns after them, cell values unchanged. -/
+theorem spark_render_keeps_last_columns {lt : Bytes → Bytes → Bool} (ho : NameOrder lt) (n : Nat) (t : Table) (s co : List Bytes)
+    (ro : Bytes → List Bytes) (hwf : t.WF) (hs : IsSortedCols lt t s) (hcov : Covers t co ro) (c r : Bytes) :
+    (renderStep n t s co ro).cell c r = if above lt (akeys t.cols) c < n then t.cell c r else none :=
+  render_cells ho n t s co ro hwf hs hcov c r
+
+/-- F24 (before b216f7d), kernel-checked on the model: with a VALUE-ordered trim the result depends on where the render
+falls.  Columns a, b, c with a a a b | b b b b c, `--cols 1`, ascending by column total: trimming after the fourth
+sample drops column b's first count. -/
+theorem spark_value_trim_timing_counterexample :
+    let valueTrim (t : Table) : Table :=
+      let cols := (isort (fun a b : NV => decide (a.value < b.value) || (a.value == b.value && bytesLt a.name b.name))
+        ((akeys t.cols).map fun c => (⟨c, t.colTotal c⟩ : NV))).map (·.name)
+      if cols.length > 1 then
+        (t.trim (renderPred (cols.drop (cols.length - 1))) (akeys t.cols) (fun _ => akeys t.rows)).1 else t
+    let a : Bytes := [97, 0, 114]
+    let b : Bytes := [98, 0, 114]
+    let c : Bytes := [99, 0, 114]
+    (valueTrim (Table.run [0] [a, a, a, b, b, b, b, b, c])).cell [98] [114] = some 5 ∧
+    (valueTrim ([b, b, b, b, c].foldl Table.sample (valueTrim (Table.run [0] [a, a, a, b])))).cell [98] [114] = some 4 := by
+  decide +kernel
 
 /-! ## exit status -/
 
@@ -896,6 +1002,88 @@ theorem csv_of_state_deterministic_reduce (s : AccGroup) (hs : AccReach s) (o₁
   rw [hl]
   have _ := hs
   exact ⟨by decide, bLt_strictTotal, reduceCsv_sameOutcome (ObsEq.refl s) (isRange_perm_obs (fun _ => rfl) r₁ r₂), rfl⟩
+
+/-- Every flag that shapes the final aggregate or its export, as the SOURCE declares it (regenerated on every run):
+the limits and their defaults (`histo --num` alias `-n` 5, `--atleast` 0; `table`, `heatmap`, `spark`, `reduce` `--num` alias `--rows`, `-n`
+20; `table`/`reduce` `--cols` 10; `spark --notruncate` off), the sort flags and their defaults, `--delim` = the
+expression array separator, `reduce --initial` "0", `analyze --quantile` 90/99/99.9 (what `AnalyzeArgs` assumes), and
+that all six exporting commands share ONE `--csv` flag, all seven one `--snapshot` flag. -/
+theorem command_flags_from_source :
+    flagOf Gen.C03.commandFlags "histo" "num" = some ("IntFlag", "num", ["n"], "5") ∧
+    flagOf Gen.C03.commandFlags "histo" "atleast" = some ("Int64Flag", "atleast", [], "0") ∧
+    flagOf Gen.C03.commandFlags "histo" "all" = some ("BoolFlag", "all", ["a"], "") ∧
+    hasShared Gen.C03.commandFlags "histo" "helpers.DefaultSortFlagWithDefault(\"value\")" = true ∧
+    hasShared Gen.C03.commandFlags "bargraph" "helpers.DefaultSortFlag" = true ∧
+    flagOf Gen.C03.commandFlags "bargraph" "stacked" = some ("BoolFlag", "stacked", ["s"], "") ∧
+    (["table", "heatmap", "spark"].all fun c =>
+      flagOf Gen.C03.commandFlags c "delim" == some ("StringFlag", "delim", [], "expressions.ArraySeparatorString") &&
+      flagOf Gen.C03.commandFlags c "num" == some ("IntFlag", "num", ["rows", "n"], "20")) = true ∧
+    flagOf Gen.C03.commandFlags "table" "cols" = some ("IntFlag", "cols", [], "10") ∧
+    flagOf Gen.C03.commandFlags "table" "sort-rows" = some ("StringFlag", "sort-rows", [], "\"value\"") ∧
+    flagOf Gen.C03.commandFlags "table" "sort-cols" = some ("StringFlag", "sort-cols", [], "\"value\"") ∧
+    flagOf Gen.C03.commandFlags "heatmap" "sort-rows" = some ("StringFlag", "sort-rows", [], "helpers.DefaultSortFlag.Value") ∧
+    flagOf Gen.C03.commandFlags "heatmap" "sort-cols" = some ("StringFlag", "sort-cols", [], "helpers.DefaultSortFlag.Value") ∧
+    flagOf Gen.C03.commandFlags "spark" "sort-rows" = some ("StringFlag", "sort-rows", [], "\"value\"") ∧
+    flagOf Gen.C03.commandFlags "spark" "sort-cols" = some ("StringFlag", "sort-cols", [], "\"numeric\"") ∧
+    flagOf Gen.C03.commandFlags "spark" "notruncate" = some ("BoolFlag", "notruncate", [], "false") ∧
+    flagOf Gen.C03.commandFlags "reduce" "num" = some ("IntFlag", "num", ["rows", "n"], "20") ∧
+    flagOf Gen.C03.commandFlags "reduce" "cols" = some ("IntFlag", "cols", [], "10") ∧
+    flagOf Gen.C03.commandFlags "reduce" "initial" = some ("StringFlag", "initial", [], "\"0\"") ∧
+    flagOf Gen.C03.commandFlags "reduce" "sort" = some ("StringFlag", "sort", [], "") ∧
+    flagOf Gen.C03.commandFlags "reduce" "sort-reverse" = some ("BoolFlag", "sort-reverse", [], "") ∧
+    flagOf Gen.C03.commandFlags "analyze" "quantile" =
+      some ("StringSliceFlag", "quantile", ["q"], "cli.NewStringSlice(\"90\", \"99\", \"99.9\")") ∧
+    ({} : AnalyzeArgs).quantiles = [[57, 48], [57, 57], [57, 57, 46, 57]] ∧ ({} : ReduceArgs).initial = [48] ∧
+    (["histo", "table", "heatmap", "spark", "bargraph", "reduce"].all fun c => hasShared Gen.C03.commandFlags c "helpers.CSVFlag" &&
+      hasShared Gen.C03.commandFlags c "helpers.NoOutFlag") = true ∧
+    hasShared Gen.C03.commandFlags "analyze" "helpers.CSVFlag" = false ∧
+    (["histo", "table", "heatmap", "spark", "bargraph", "analyze", "reduce"].all fun c =>
+      hasShared Gen.C03.commandFlags c "helpers.SnapshotFlag") = true := by
+  and_intros <;> decide
+
+/-- Which flag every variable of the command functions is read from (a swapped or renamed flag breaks this): the
+limits, the delimiter, the sort names, `spark`'s `noTruncate`. -/
+theorem command_flag_reads_from_source :
+    readOf Gen.C03.commandFlagReads "histo" "topItems" = some "c.Int(\"n\")" ∧
+    readOf Gen.C03.commandFlagReads "histo" "atLeast" = some "c.Int64(\"atleast\")" ∧
+    readOf Gen.C03.commandFlagReads "histo" "all" = some "c.Bool(\"all\")" ∧
+    readOf Gen.C03.commandFlagReads "histo" "sortName" = some "c.String(helpers.DefaultSortFlag.Name)" ∧
+    readOf Gen.C03.commandFlagReads "bargraph" "sortName" = some "c.String(helpers.DefaultSortFlag.Name)" ∧
+    readOf Gen.C03.commandFlagReads "bargraph" "stacked" = some "c.Bool(\"stacked\")" ∧
+    (["table", "heatmap", "spark"].all fun c =>
+      readOf Gen.C03.commandFlagReads c "delim" == some "c.String(\"delim\")" &&
+      readOf Gen.C03.commandFlagReads c "numRows" == some "c.Int(\"num\")" &&
+      readOf Gen.C03.commandFlagReads c "numCols" == some "c.Int(\"cols\")" &&
+      readOf Gen.C03.commandFlagReads c "sortRows" == some "c.String(\"sort-rows\")" &&
+      readOf Gen.C03.commandFlagReads c "sortCols" == some "c.String(\"sort-cols\")") = true ∧
+    readOf Gen.C03.commandFlagReads "spark" "noTruncate" = some "c.Bool(\"notruncate\")" ∧
+    readOf Gen.C03.commandFlagReads "reduce" "defaultInitial" = some "c.String(\"initial\")" ∧
+    readOf Gen.C03.commandFlagReads "reduce" "sort" = some "c.String(\"sort\")" ∧
+    readOf Gen.C03.commandFlagReads "reduce" "sortReverse" = some "c.Bool(\"sort-reverse\")" := by
+  decide
+
+/-- The trim step of `spark`'s render callback as the source spells it: guarded by `--notruncate` and by the column
+sort NOT being value-ordered (b216f7d), and a body that is statement for statement what `renderStep` / `sparkTrim`
+model (`OrderedColumns(colSorter)`, more than `numCols` ⇒ keep the LAST `numCols`, `Trim` everything else) – the `tbl`
+correspondence op replays this very block on the real aggregator. -/
+theorem spark_trim_from_source :
+    Gen.C03.sparkTrimGuard = "!noTruncate && !helpers.SortsByValue(sortCols)" ∧
+    Gen.C03.sortsByValueSrc = "{ name, _, err := parseSort(fullName) return err == nil && name == \"value\" }" ∧
+    Gen.C03.sparkTrimBody = [
+      "{",
+      "if keepCols := counter.OrderedColumns(colSorter); len(keepCols) > numCols {",
+      "keepCols = keepCols[len(keepCols)-numCols:]",
+      "keepLookup := make(map[string]struct{})",
+      "for _, item := range keepCols {",
+      "keepLookup[item] = struct{}{}",
+      "}",
+      "counter.Trim(func(col, row string, val int64) bool {",
+      "_, ok := keepLookup[col]",
+      "return !ok",
+      "})",
+      "}",
+      "}"] := by
+  decide
 
 /-! ### non-vacuity for the wiring theorems -/
 
